@@ -173,7 +173,7 @@ class RangeIt(It):
 
 class SplitStrIt(It):
     """str::split(&str pattern): leftmost, non-overlapping matches; yields the pieces between them"""
-    def __init__(self, s, pat): self.bytes, self.pat, self.cur, self.done = list(s.elems), list(pat.elems), 0, False
+    def __init__(self, s, pat, terminator=False): self.bytes, self.pat, self.cur, self.done, self.terminator = list(s.elems), list(pat.elems), 0, False, terminator
     def match_at(self, p):
         return z3.And([self.bytes[p + t] == self.pat[t] for t in range(len(self.pat))]) if self.pat else z3.BoolVal(True)
     def next(self, M):
@@ -188,6 +188,7 @@ class SplitStrIt(It):
         k = M.choose(conds, 'split')
         if k == len(poss):
             self.done = True
+            if self.terminator and self.cur == n: return None      # split_terminator: an empty last piece is not yielded
             return ValSlice(self.bytes[self.cur:], is_str=True)
         p = poss[k]
         piece = ValSlice(self.bytes[self.cur:p], is_str=True)
@@ -637,11 +638,17 @@ def m_starts_with(M, a, c, fr):
     return z3.And([bs[t] == pat[t] for t in range(len(pat))]) if pat else z3.BoolVal(True)
 
 
-def m_str_split(M, a, c, fr): return SplitStrIt(deref(M, a[0]), deref(M, a[1]))
+def m_str_split(M, a, c, fr): return SplitStrIt(deref(M, a[0]), deref(M, a[1]), terminator='split_terminator' in c)
 def m_as_bytes(M, a, c, fr):
     v = deref(M, a[0]); return ValSlice(v.elems)
-def m_str_len(M, a, c, fr): return BV64(len(sbytes(M, a[0])))
-def m_str_is_empty(M, a, c, fr): return z3.BoolVal(len(sbytes(M, a[0])) == 0)
+def m_str_len(M, a, c, fr):
+    v = deref(M, a[0])
+    if isinstance(v, Tok): return z3.BitVec('len(%s)' % v.name, 64)
+    return BV64(len(sbytes(M, a[0])))
+def m_str_is_empty(M, a, c, fr):
+    v = deref(M, a[0])
+    if isinstance(v, Tok): return z3.BitVec('len(%s)' % v.name, 64) == 0      # opaque string: its length is a free value
+    return z3.BoolVal(len(sbytes(M, a[0])) == 0)
 
 
 def m_str_eq(M, a, c, fr):
@@ -808,7 +815,14 @@ def tid_of(name, sort=None):
 def m_typeid_of(M, a, c, fr):
     m = re.fullmatch(r'TypeId::of::<(.*)>', c)
     M.aux.setdefault('typeid_of_log', []).append(m.group(1))
-    return tid_of(m.group(1), M.aux.get('tid_sort'))
+    t = tid_of(m.group(1), M.aux.get('tid_sort'))
+    if M.aux.get('tid_distinct'):
+        # harness assumption: differently named types are different types (type parameters are pairwise distinct, none is PhantomData)
+        seen = M.aux.setdefault('tid_seen', {})
+        if m.group(1) not in seen:
+            for o in seen.values(): M.add(t != o)
+            seen[m.group(1)] = t
+    return t
 
 
 def m_typeid_eq(M, a, c, fr): return deref(M, a[0]) == deref(M, a[1])
@@ -829,6 +843,46 @@ def m_opaque_cmp(M, a, c, fr):
     x, y = deref(M, a[0]), deref(M, a[1])
     if not (z3.is_expr(x) and z3.is_expr(y) and x.sort().kind() == z3.Z3_UNINTERPRETED_SORT): raise Inconclusive('Ord::cmp on %r' % (x,))
     return ordering(opaque_lt(M, x, y), x == y)
+
+
+def m_box_new_uninit(M, a, c, fr):
+    """Box<MaybeUninit<[T; N]>> of the vec![..] expansion: Box{Unique{NonNull}} -> MaybeUninit{uninit, value: ManuallyDrop{MaybeDangling{array}}}"""
+    return [[Ref(Cell([None, [[None]]]))]]
+
+
+def m_box_into_vec(M, a, c, fr):
+    p = a[0][0][0]
+    arr = M.load(p)[1][0][0]
+    if not isinstance(arr, list): raise Inconclusive('box_assume_init_into_vec of %r' % (arr,))
+    return VecV(BV64(len(arr)), list(arr))
+
+
+def m_type_name(M, a, c, fr):
+    m = re.search(r'type_name::<(.*)>$', c); return Tok('type_name<%s>' % m.group(1))
+
+
+def m_str_cmp(M, a, c, fr):
+    """Ord on strings: concrete against concrete bytewise; opaque strings through an injective rank per token"""
+    x, y = deref(M, a[0]), deref(M, a[1])
+    if isinstance(x, Tok) and isinstance(y, Tok):
+        if x.name == y.name: return ordering(z3.BoolVal(False), z3.BoolVal(True))
+        rx, ry = z3.Int('strrank(%s)' % x.name), z3.Int('strrank(%s)' % y.name); M.add(rx != ry)
+        return ordering(rx < ry, z3.BoolVal(False))
+    if isinstance(x, ValSlice) and isinstance(y, ValSlice) and all(z3.is_bv_value(b) for b in list(x.elems) + list(y.elems)):
+        bx, by = bytes(b.as_long() for b in x.elems), bytes(b.as_long() for b in y.elems)
+        return ordering(z3.BoolVal(bx < by), z3.BoolVal(bx == by))
+    raise Inconclusive('str::cmp of %r and %r' % (x, y))
+
+
+def m_ordering_then_with(M, a, c, fr):
+    o = a[0]; d = o.discr if not isinstance(o.discr, int) else bv(o.discr & 0xFF, 8)
+    if M.concrete_bool(d == bv(0, 8), 'then_with'): return M.call_value(a[1], [])
+    return o
+
+
+def m_ordering_then(M, a, c, fr):
+    o = a[0]; d = o.discr if not isinstance(o.discr, int) else bv(o.discr & 0xFF, 8)
+    return a[1] if M.concrete_bool(d == bv(0, 8), 'then') else o
 
 
 def m_binary_search_by(M, a, c, fr):
@@ -973,7 +1027,13 @@ def m_iter_size_hint(M, a, c, fr):
     return [BV64(0), opt_none()]
 
 
-def m_vec_with_capacity(M, a, c, fr): return VecV(BV64(0), [])
+def m_vec_with_capacity(M, a, c, fr):
+    M.aux.setdefault('alloc_requests', []).append(a[0])       # element counts requested up front (memory clause of C14)
+    return VecV(BV64(0), [])
+
+
+def m_vec_reserve(M, a, c, fr):
+    M.aux.setdefault('alloc_requests', []).append(a[1]); return []
 
 
 def m_write_fmt(M, a, c, fr):
@@ -1039,23 +1099,28 @@ MODELS = [
     (r'core::str::<impl str>::trim_start_matches::<&str>', m_trim_start_matches),
     (r'core::str::<impl str>::strip_prefix::<&str>', m_strip_prefix),
     (r'core::str::<impl str>::starts_with::<&str>', m_starts_with),
-    (r'core::str::<impl str>::split::<&str>', m_str_split),
+    (r'core::str::<impl str>::split(_terminator)?::<&str>', m_str_split),
     (r'core::str::<impl str>::as_bytes', m_as_bytes), (r'core::str::<impl str>::len', m_str_len), (r'core::str::<impl str>::is_empty', m_str_is_empty),
     (r'<&?str as PartialEq(<&?str>)?>::eq', m_str_eq), (r'<String as PartialEq(<.*>)?>::eq', m_str_eq),
     (r'core::num::<impl u8>::is_ascii_lowercase', u8_pred(97, 122)), (r'core::num::<impl u8>::is_ascii_uppercase', u8_pred(65, 90)),
     (r'core::num::<impl u8>::is_ascii_digit', u8_pred(48, 57)),
     (r'core::num::<impl u8>::is_ascii_alphabetic', m_u8_alpha), (r'core::num::<impl u8>::is_ascii_alphanumeric', m_u8_alnum),
     (r'<String as Deref(Mut)?>::deref(_mut)?', m_ident), (r'String::as_str', m_ident), (r'<String as AsRef<str>>::as_ref', m_ident), (r'<String as Borrow<str>>::borrow', m_ident),
+    (r'<(&?str|String|S|&S) as AsRef<str>>::as_ref', m_str_to_owned), (r'<(&?str|String) as Borrow<str>>::borrow', m_str_to_owned),
     (r'<&str as Into<String>>::into', m_str_to_owned), (r'<String as From<&str>>::from', m_str_to_owned),
     (r'(alloc|std)::string::<impl ToString for str>::to_string|<str as ToString>::to_string|<str as ToOwned>::to_owned', m_str_to_owned),
     # TypeId
     (r'core::slice::<impl \[.*\]>::binary_search_by::<.*>', m_binary_search_by), (r'Vec::<.*>::insert', m_vec_insert), (r'<T as Ord>::cmp', m_opaque_cmp),
+    (r'Box::<\[.*; \d+\]>::new_uninit', m_box_new_uninit), (r'(std|alloc)::boxed::box_assume_init_into_vec_unsafe::<.*>', m_box_into_vec),
+    (r'(core::|std::)?(any::)?type_name::<.*>', m_type_name), (r'<&?str as Ord>::cmp', m_str_cmp), (r'<&?str as PartialOrd>::partial_cmp', lambda M, a, c, fr: opt_some(m_str_cmp(M, a, c, fr))),
+    (r'(std::cmp::|core::cmp::)?Ordering::then_with::<.*>', m_ordering_then_with), (r'(std::cmp::|core::cmp::)?Ordering::then', m_ordering_then),
+    (r'<&?str as Hash>::hash(::<.*>)?', lambda M, a, c, fr: (M.aux.setdefault('hash_log', []).append(deref(M, a[0])), [])[1]),
     (r'TypeId::of::<.*>', m_typeid_of), (r'<TypeId as PartialEq>::eq', m_typeid_eq), (r'<TypeId as Ord>::cmp', m_typeid_cmp),
     (r'<(TypeId|usize|u8|u16|u32|u64|u128|isize|i32|i64|bool|str|String) as Hash>::hash::<.*>', m_typeid_hash), (r'<TypeId as Clone>::clone', lambda M, a, c, fr: deref(M, a[0])),
     (r'<&(mut )?(?!str\b)[\w:]+(<.*>)? as PartialEq(<.*>)?>::(eq|ne)', m_ref_eq),
     (r'<Vec<.*> as PartialEq>::(eq|ne)', lambda M, a, c, fr: (M.val_eq(deref(M, a[0]), deref(M, a[1])) if c.endswith('eq') else z3.Not(M.val_eq(deref(M, a[0]), deref(M, a[1]))))),
     # misc
-    (r'<.* as Iterator>::size_hint', m_iter_size_hint), (r'Vec::<.*>::with_capacity', m_vec_with_capacity), (r'Vec::<.*>::reserve', lambda M, a, c, fr: []),
+    (r'<.* as Iterator>::size_hint', m_iter_size_hint), (r'Vec::<.*>::with_capacity', m_vec_with_capacity), (r'Vec::<.*>::reserve(_exact)?', m_vec_reserve),
     (r'(core|alloc|std)::str::<impl str>::\w+(::<.*>)?', m_str_opaque), (r'String::(replace|trim\w*|contains|starts_with|ends_with|len|is_empty)(::<.*>)?', m_str_opaque),
     (r'<[A-Z]\w? as PartialEq>::(eq|ne)', lambda M, a, c, fr: (M.val_eq(deref(M, a[0]), deref(M, a[1])) if c.endswith('eq') else z3.Not(M.val_eq(deref(M, a[0]), deref(M, a[1]))))),
     (r'<[ui](8|16|32|64|128|size) as (Try)?From<([ui](8|16|32|64|128|size)|bool)>>::(try_)?from', m_int_from),
